@@ -75,6 +75,11 @@ CLAIMS = {
   text="Structural necessary conditions of well-formed, order-preserving encodings: every text returned by SexpToJson / jsonHashHelper / jsonArrayHelper is built only from encoder constants, jsonQuote results (encoding/json), recursive encoder results, or the printer of a number/bool; strings, symbols, keys, key-order entries and the type name are quoted; nil is null; encoders and decoders agree on the reserved keys Atype and zKeyOrder; decoders walk maps through a sorting helper and restore order from the key list when found; both codec handles are canonical; msgpack goes through SexpToJson. Non-finite floats are a recorded finding. Does not decide value equality after the round trip or number formatting.",
   note="Trusts encoding/json for string escaping and go/ssa for the provenance walk.",
   ref="DESIGN.md §3 C11"),
+ "C10": dict(
+  technique="exhaustiveness and agreement checks on the converters' type switches against the field types of the registered demo structs (go/types), dedup-argument dataflow over go/ssa, path check of the unknown-field branch, barrier reachability",
+  text="Structural necessary conditions of lossless conversion: in SexpToGoStructs, SexpToGo, fillHashHelper and decodeGoToSexpHelper the arm for a kind without a conversion ends in an error or panic (three recorded findings where it does not); for every field type of the structs registered by RegisterDemoStructs/ImportDemoData record->Go has the arm of the carrying value type and Go->record has an arm for the Go type (five recorded findings, e.g. time.Time, pinned by the test suite); every recursive SexpToGoStructs/SexpToGo call passes the caller's dedup cache, which is read before and written after converting a record; a record field missing from the struct leads to the capitalised retry or a panic; the converters are reachable only behind the builtin recover barrier. Does not decide value equality after a trip, nor shared-object identity.",
+  note="Trusts go/types for the struct field walk and go/ssa for the argument flow; demo-struct registration is read from the factory literals.",
+  ref="DESIGN.md §3 C10"),
 }
 NA_DEFAULT="rules not built yet (build in progress; see DESIGN.md §7)"
 NA = {}
